@@ -17,6 +17,13 @@ package main
 // behaviours through generated proxy -> in-process server -> generated stub.
 // Plain interfaces are additionally generated in IDL packages of three.
 //
+// Overload groups (several actions of one name): the implementor and the
+// registration are derived from the generated declarations in declaration
+// order, so the overloads Set, Set_0, Set_1 .. become methods of their own;
+// the runner compares the generated names with the Go names the
+// specification derives (acts[].go) and the implementation method that ran
+// with the overload the proxy method denotes (ops[].ran / rango).
+//
 // Packages whose interface exchanges objects of interfaces of the package
 // (Probe, Relay, the interface itself) carry the declarations of those
 // interfaces (the specification's text, in one of two layouts); their
